@@ -9,7 +9,7 @@
     The rest (name resolution, inference, lints) is checked by compiling the generated programs of
     this check's grammar under #![deny(warnings)] against the real proc-macro. *)
 From DX Require Import Syntax Tables GenBound GenAttrs IR GenType GenCmp GenImpl GenTop
-     SpecAttrs SpecBound SemCmp SpecCmp LemDump LemBound LemCmp LemData LemStatic LemNoPanic.
+     SpecAttrs SpecBound SemCmp SpecCmp LemDump LemBound LemCmp LemData LemStatic LemStaticEnum LemNoPanic.
 
 (** [body_obligations b]: the field types on which body [b] calls a method of the derived trait *)
 Theorem C20_obligations_are_used_fields :
@@ -28,9 +28,70 @@ Theorem C20_obligations_discharged :
     In t (ih_wtypes (ir_hdr ir)).
 Proof. exact struct_obligations_discharged. Qed.
 
+(** the same for enums ([enum_entry]: what [build_enum_entries] runs for each requested trait, LemDump.build_enum_entries_eq;
+    [enum_vplans]: per variant, the fields the trait uses - for Default the fields of the default variant only) *)
+Theorem C20_enum_obligations_are_used_fields :
+  forall en h vs e ir vp,
+    enum_entry en h vs e = Ok (Ok [ir]) ->
+    enum_vplans (en_kind e) h vs = Some vp ->
+    incl (body_obligations (ir_body ir)) (used_types vp).
+Proof. exact enum_body_obligations. Qed.
+
+Theorem C20_enum_obligations_discharged :
+  forall en h vs e ir vp t,
+    ha_items h = [] ->
+    enum_entry en h vs e = Ok (Ok [ir]) ->
+    enum_vplans (en_kind e) h vs = Some vp ->
+    no_bounds (top_levels (en_kind e) e h) vp ->
+    In t (body_obligations (ir_body ir)) ->
+    contains_in_type (gps_new (decl_generics (en_kind e) (e_name en) (e_generics en))) t = true ->
+    In t (ih_wtypes (ir_hdr ir)).
+Proof. exact enum_obligations_discharged. Qed.
+
+(** the hypotheses are met by a concrete generic enum: `enum E<T, U> { A(T, u8), B { x: Option<U> } }` deriving Clone
+    calls `clone` on T, u8 and Option<U>; the where-clause lists the two that mention a parameter *)
+Definition ex_h : hattrs :=
+  {| ha_items := []; ha_default := None; ha_debug := debug_attr_default;
+     ha_cmp := {| h_ord := cmp_attr_default; h_partial_ord := cmp_attr_default; h_eq := cmp_attr_default;
+                  h_partial_eq := cmp_attr_default; h_hash := cmp_attr_default |} |}.
+Definition ex_f (i : nat) (n : option string) (t : ty) : fentry :=
+  {| fe_index := i; fe_field := {| f_attrs := []; f_vis := []; f_name := n; f_ty := t |}; fe_hattrs := ex_h |}.
+Definition ex_opt_u : ty := TyPath None false [Seg "Option" (SAAngle [GTy (ident_ty "U")])].
+Definition ex_va : ventry :=
+  {| ve_variant := {| v_attrs := []; v_name := "A"; v_discr := None;
+                      v_fields := FUnnamed (map fe_field [ex_f 0 None (ident_ty "T"); ex_f 1 None (ident_ty "u8")]) |};
+     ve_fields := [ex_f 0 None (ident_ty "T"); ex_f 1 None (ident_ty "u8")]; ve_hattrs := ex_h |}.
+Definition ex_vb : ventry :=
+  {| ve_variant := {| v_attrs := []; v_name := "B"; v_discr := None;
+                      v_fields := FNamed [fe_field (ex_f 0 (Some "x") ex_opt_u)] |};
+     ve_fields := [ex_f 0 (Some "x") ex_opt_u]; ve_hattrs := ex_h |}.
+Definition ex_en : item_enum :=
+  {| e_attrs := []; e_vis := []; e_name := "E";
+     e_generics := {| g_params := [GPTy "T" [] None; GPTy "U" [] None]; g_where := [] |};
+     e_variants := [ve_variant ex_va; ve_variant ex_vb] |}.
+Definition ex_e : entry := {| en_kind := KClone; en_dump := false; en_this := bounds_new; en_common := bounds_new |}.
+
+Example C20_enum_hypotheses_met :
+  exists ir vp,
+    enum_entry ex_en ex_h [ex_va; ex_vb] ex_e = Ok (Ok [ir]) /\
+    enum_vplans (en_kind ex_e) ex_h [ex_va; ex_vb] = Some vp /\
+    no_bounds (top_levels (en_kind ex_e) ex_e ex_h) vp /\
+    body_obligations (ir_body ir) = [ident_ty "T"; ident_ty "u8"; ex_opt_u] /\
+    ih_wtypes (ir_hdr ir) = [ident_ty "T"; ex_opt_u].
+Proof.
+  eexists; eexists. split; [vm_compute; reflexivity|]. split; [vm_compute; reflexivity|].
+  split; [|split; reflexivity].
+  split.
+  - repeat constructor.
+  - intros v [<-|[<-|[]]]; (split; [repeat constructor|]); cbn; intros f Hf;
+      repeat (destruct Hf as [<-|Hf]; [repeat constructor|]); destruct Hf.
+Qed.
+
 Theorem C20_never_a_panic : forall inv, Forall not_panic (x_entries (expand inv)).
 Proof. exact expand_no_panic. Qed.
 
 Print Assumptions C20_obligations_are_used_fields.
 Print Assumptions C20_obligations_discharged.
+Print Assumptions C20_enum_obligations_are_used_fields.
+Print Assumptions C20_enum_obligations_discharged.
 Print Assumptions C20_never_a_panic.
